@@ -43,11 +43,15 @@ ENV = {'e0': 'env.e0'}
 
 
 def make_value(prng, who, var):
+    # 'null': a published null is a publication like any other (it hides
+    # an older value of input / vars / a global publication)
     shape = prng.choice(['scalar', 'scalar', 'list', 'dict', 'dict',
-                         'nested', 'empty', 'num'])
+                         'nested', 'empty', 'num', 'null'])
     uid = '%s.%s' % (who, var)
     if shape == 'scalar':
         return uid
+    if shape == 'null':
+        return None
     if shape == 'num':
         return int(who[1:]) * 100 + int(var[1:]) + 1
     if shape == 'list':
